@@ -2,7 +2,7 @@
    Without id wrap-around (no_wrap) every tracked request id belongs to exactly one stage
    (id handed out / queued / in flight), its oneshot is unsettled, and it is covered by a call
    future that still awaits it (or is being dropped) or by a queued cancellation. *)
-From Coq Require Import List Bool Arith NArith Lia ZifyBool ZifyNat ZifyN.
+From Coq Require Import List Bool Arith NArith Lia ZifyNat ZifyN.
 Import ListNotations.
 From TarpcV Require Import Base Transport Client ClientS ClientMon ClientSpec ClientLemmas
   ClientProofsG1Frames ClientSimBase ClientProofsG1C11.
